@@ -75,3 +75,7 @@ Proof.
   split; [|constructor; auto]. destruct l; cbn; auto. destruct ok; auto. exfalso. apply (Hn true). reflexivity.
 Qed.
 End Trace.
+
+(* the read-ahead bound in the property's terms *)
+Theorem readahead_bound B K valid s i : 0 < B <= 1000 -> reach B K valid s -> imax s <= i + 1 -> plocal s <= i + 1 + 1000.
+Proof. intros HB Hr Hi. destruct (readahead B K (proj1 HB) valid s Hr) as (H & _). lia. Qed.
